@@ -1,6 +1,6 @@
 (* C05 - executable comparison functions used by the generated cases file (no proofs). *)
 From Coq Require Import List NArith Bool.
-From Dae Require Import C05_Spec C05_Model.
+From Dae Require Import C05_Spec C05_Model C05_SpliceModel.
 From Dae.gen Require Import C05_Extracted.
 Import ListNotations.
 Open Scope N_scope.
@@ -111,3 +111,39 @@ Definition check_case (o : obs) : list N * (N * N * N * N * N) :=
     ++ e 36 (match o_dl_at_start m1 with None => true | Some _ => false end)
     ++ e 37 (o_start m1 <=? allowed),
    signature_of o m1).
+
+(* ------------------------------------------------------------------ splice path scenarios (real sockets) *)
+Record sobs := mkSObs {
+  so_seed : N;                          (* clean pipes put into the emptied pool before connection 1 *)
+  so_conn1 : list iter * list N;        (* oracle of connection 1's l2r loop rebuilt from the observed drains; its upload *)
+  so_exact : bool;                      (* the exit of connection 1 is known exactly (ctx seen at the loop top, or clean EOF) *)
+  so_later : list (list N * list N);    (* later connections: bytes sent up and down *)
+  si_delivered : N;                     (* sum of the drains of connection 1 *)
+  si_pool_len : N;
+  si_pool_dirty : list N;               (* unread bytes of every pooled pipe after connection 1 *)
+  si_later : list (list N * list N * bool * bool)   (* received up, received down, eof up, eof down *)
+}.
+
+Definition whole (l : list N) : list iter := [mkIt false (FillN (len l)) (DrainN (len l)); mkIt false FillEof DrainZero].
+
+(* codes: 4x impl<>model, 2x impl<>spec (29: a pooled pipe holds bytes), 3x model<>spec *)
+Definition check_splice (o : sobs) : list N :=
+  let e c (b : bool) := if b then [] else [c] in
+  let pool0 := repeat new_pipe (N.to_nat (so_seed o)) in
+  let h1 := run_history code_flags [so_conn1 o; ([mkIt false FillErr DrainZero], [])] pool0 in
+  let dirs := flat_map (fun ud => [(whole (fst ud), fst ud); (whole (snd ud), snd ud)]) (so_later o) in
+  let h2 := run_history code_flags dirs (snd h1) in
+  let fix pairs (l : list (list N)) : list (list N * list N) :=
+      match l with a :: b :: r => (a, b) :: pairs r | _ => [] end in
+  let mouts := pairs (fst h2) in
+  e 29 (forallb (N.eqb 0) (si_pool_dirty o))
+  ++ e 44 (negb (existsb pipe_dirtyb (snd h1)))
+  ++ e 45 (negb (so_exact o) || (si_pool_len o =? N.of_nat (length (snd h1))))
+  ++ e 43 (negb (so_exact o) || (si_delivered o =? len (nth 0 (fst h1) [])))
+  ++ e 42 (Nat.eqb (length mouts) (length (si_later o))
+           && forallb (fun x => let '((mu, md), (iu, id_, _, _)) := x in list_eqb mu iu && list_eqb md id_) (combine mouts (si_later o)))
+  ++ e 21 (forallb (fun x => let '((su, _), (iu, _, _, _)) := x in list_eqb su iu) (combine (so_later o) (si_later o)))
+  ++ e 22 (forallb (fun x => let '((_, sd), (_, id_, _, _)) := x in list_eqb sd id_) (combine (so_later o) (si_later o)))
+  ++ e 23 (forallb (fun x => let '(_, _, eu, _) := x in eu) (si_later o))
+  ++ e 24 (forallb (fun x => let '(_, _, _, ed) := x in ed) (si_later o))
+  ++ e 31 (forallb (fun x => let '((su, sd), (mu, md)) := x in list_eqb su mu && list_eqb sd md) (combine (so_later o) mouts)).
